@@ -62,16 +62,24 @@ def prompt_cases(thorough):
                     yield {"field": "name01", "byte": b, "pos": pos, "kind": "file", "level": 2, "member": member, "answers": answers, "modes": ["x", "e", "xv"]}
 
 
+def percent_cases(thorough):
+    for spec in ("%c%c%c%c", "%5c%c", "%x%x%x%x%x%x", "%d", "%%", "%s", "%08.3f%c", "%lu%c%c"):
+        for which in ("name", "path", "target", "user", "inname"):
+            for member in (0, 1):
+                yield {"field": "percent", "spec": spec, "which": which, "byte": 0x25, "kind": "link" if which == "target" else "file", "level": 2, "member": member}
+
+
 def run(ctx):
     cliprop.run_space(ctx, "props.cli_c18", "fields", cases(ctx.thorough), chunk=16)
     cliprop.run_space(ctx, "props.cli_c18", "long", long_cases(ctx.thorough), chunk=16)
+    cliprop.run_space(ctx, "props.cli_c18", "percent", percent_cases(ctx.thorough), chunk=8)
     cliprop.run_space(ctx, "props.cli_c18", "prompt", prompt_cases(ctx.thorough), chunk=16)
     cliprop.run_space(ctx, "props.cli_c18", "hdrbyte", hdrbyte_cases(ctx.thorough), chunk=16)
     ctx.assumptions += ["member data is printable so that the whole of stdout and stderr can be judged; the tool is the real main() of src/ linked into the batch runner (ASan/UBSan build)"]
     return ctx.finish(
         rule="for each header field that can reach the terminal (level-0/1 in-header name, 0x01 name, 0x02 path components, link target in the name and through the path header, the free method byte of the first member, all five method bytes of a later member, user and group names): "
              "each byte value 0x01..0xFF (quick: all C0 controls, DEL, 0x80, 0x9B, 0xA0, 0xFF and separators) at first/middle/last position, as file, directory and link entry, as first and as last of three members; x 12 modes {l, lv, v, vv, t, x, xn, xq0, xq1, xq2, p, pq}. "
-             "space 'prompt': x, e, xv over members whose files already exist, with 9 answer scripts on standard input (skip, no, yes, all, junk, empty lines, end of input, mixed); space 'hdrbyte': every single byte of a plain member's header (levels 0-3, incl. the OS type, attribute, level and size bytes) replaced by ESC, CSI, DEL (thorough: 7 values), checksums re-made; space 'long': names, path components, link targets, user and group names of 200..4000 (thorough 30000) bytes, lengths around 255/256, 511/512, 1023/1024, with a hostile byte at offsets 0, 100, 254..257 and at the end. Oracle: every byte of stdout and stderr is in {0x20..0x7E, LF, CR, TAB}. states = distinct outputs. non-trivial = distinct cases",
+             "space 'percent': printf conversion specifications in names, paths, link targets, owner names (they must come out as they are, and nothing unprintable with them); space 'prompt': x, e, xv over members whose files already exist, with 9 answer scripts on standard input (skip, no, yes, all, junk, empty lines, end of input, mixed); space 'hdrbyte': every single byte of a plain member's header (levels 0-3, incl. the OS type, attribute, level and size bytes) replaced by ESC, CSI, DEL (thorough: 7 values), checksums re-made; space 'long': names, path components, link targets, user and group names of 200..4000 (thorough 30000) bytes, lengths around 255/256, 511/512, 1023/1024, with a hostile byte at offsets 0, 100, 254..257 and at the end. Oracle: every byte of stdout and stderr is in {0x20..0x7E, LF, CR, TAB}. states = distinct outputs. non-trivial = distinct cases",
         replay_fn=lambda rep: cliprop.replay_case(rep))
 
 
